@@ -67,8 +67,10 @@ pub fn generate_c01(tier: &str, rng: &mut Prng) -> Vec<Case> {
                         let cf: Vec<i64> = r.b0[3].iter().map(|&x| -(x as i64)).collect();
                         ops.push(Case::traced(
                             format!(
-                                "sign_check {n} {} {} {} {} {} {} {} {} {}",
-                                ints(&f), ints(&g), ints(&cf), ints(&cg), hex(&msg), hex(&r.sig[1..41]), ints(z0), ints(z1), hex(&r.pk)
+                                "sign_check {n} {} {} {} {} {} {} {} {} {}{}",
+                                ints(&f), ints(&g), ints(&cf), ints(&cg), hex(&msg), hex(&r.sig[1..41]), ints(z0), ints(z1), hex(&r.pk),
+                                // the exact key check (O(n^2) integer products) once per key, on its first traced signature
+                                if i == 0 { "" } else { " samekey" }
                             ),
                             format!("{} {} frac<{} hyp=ok", hex(&r.sig), r.verified, if worst < 1e-3 { "1e-3" } else { "LARGE" }),
                         ));
